@@ -93,12 +93,18 @@ type config struct {
 	vertical bool
 	height   float64
 	valign   canvas.TextAlign
+	// reuse (rich text only): the RichText has held another text with a second face and an inline
+	// object before and was Reset ("resets the rich text to its initial state")
+	reuse bool
 }
 
 func (c config) String() string {
 	s := fmt.Sprintf("face=%s width=%g halign=%v indent=%g lineStretch=%g", faceLabels[c.faceMode], c.width, c.halign, c.indent, c.stretch)
 	if c.vertical {
 		s += fmt.Sprintf(" height=%g valign=%v", c.height, c.valign)
+	}
+	if c.reuse {
+		s += " RichText reused after WriteString(\"ab\"), WriteCanvas(2x3 mm), WriteFace(EBGaramond, \"cd\"), Reset()"
 	}
 	return s
 }
@@ -123,6 +129,12 @@ func layout(toks []int, c config) (*canvas.Text, string) {
 		return canvas.NewTextBox(faces[c.faceMode], s, c.width, height, c.halign, valign, c.indent, c.stretch), s
 	}
 	rt := canvas.NewRichText(faces[0])
+	if c.reuse {
+		rt.WriteString("ab")
+		rt.WriteCanvas(canvas.New(2, 3), canvas.Baseline)
+		rt.WriteFace(faces[1], "cd")
+		rt.Reset()
+	}
 	for i, t := range toks {
 		if i < 2 {
 			rt.WriteString(tokens[t])
@@ -944,6 +956,36 @@ func family(faceMode, maxLen int) fw.Family {
 	}
 }
 
+// reuseFamily: the rich text of family 3 laid out by a RichText that was used for another text (with an
+// inline object and a second face) and Reset: whatever Reset leaves behind shows in the next text.
+func reuseFamily(maxLen int) fw.Family {
+	return fw.Family{
+		Name: "strings x " + faceLabels[3] + ", RichText reused after Reset", N: seqCount(baseTokens, maxLen),
+		Check: func(i int64, r *fw.R) {
+			loadFonts()
+			if fontErr != nil {
+				panic(fontErr)
+			}
+			toks := decode(i, baseTokens)
+			if len(toks) < 3 {
+				r.Outcome("rich-text-needs-3-tokens(skipped)")
+				return
+			}
+			r.NontrivialIdx()
+			readShaped(toks, 3)
+			for _, w := range []float64{0, 11, 25} {
+				for _, h := range []canvas.TextAlign{canvas.Left, canvas.Justify} {
+					CheckLayout(r, toks, config{faceMode: 3, width: w, halign: h, reuse: true})
+				}
+			}
+		},
+		Desc: func(i int64) string {
+			toks := decode(i, baseTokens)
+			return fmtTokens(toks) + " features=" + features(toks)
+		},
+	}
+}
+
 // paragraphFamily: a first line, an explicit newline, 0..2 spaces, and a paragraph of 4 or 5 words
 // that wraps in the narrower boxes (the strings of the main families are too short for a wrapped
 // paragraph after a newline).
@@ -1112,7 +1154,7 @@ func families(tier string) []fw.Family {
 	if liberationPath() != "" {
 		fs = append(fs, family(2, n))
 	}
-	fs = append(fs, family(3, n))
+	fs = append(fs, family(3, n), reuseFamily(n))
 	// vertical alignment and box height
 	fs = append(fs, verticalFamily(0, n-1, true), verticalFamily(1, n-1, true))
 	if liberationPath() != "" {
